@@ -6,7 +6,7 @@ follows the reservation -/
 theorem inv_updRegion {s s' : State} {p : List Nat} {r : Nat} {reg reg' : Region} (h : InvP s p)
     (hr : s.regions[r]? = some reg) (hregs : s'.regions = s.regions.set r reg')
     (hown : s'.owners = s.owners) (hsl : s'.slots = s.slots)
-    (hpool : s'.pool + reg.claimed.getD 0 = s.pool + reg'.claimed.getD 0)
+    (hpool : ∀ q, s'.pool q + reg.claimIn q = s.pool q + reg'.claimIn q)
     (h1 : reg'.rc = reg.rc) (h2 : reg'.kind = reg.kind) (h3 : reg'.released = reg.released)
     (h4 : reg'.relCount = reg.relCount) (h5 : reg'.released = true → reg'.claimed = none)
     (h6 : ∀ c, reg'.claimed = some c → c = reg'.cap) : InvP s' p := by
@@ -32,9 +32,11 @@ theorem inv_updRegion {s s' : State} {p : List Nat} {r : Nat} {reg reg' : Region
       exact ⟨by rw [h3, h1]; exact hok.rel_iff, by rw [h4, h3]; exact hok.rel_count, h5, h6⟩
     · exact h.reg_ok r' x e
   · intro o ow hh; rw [hown] at hh; exact h.own_ok o ow hh
-  · have := claimSum_set hregs hr
-    have hp := h.pool_eq
-    have hge := sumMap_ge (fun reg => reg.claimed.getD 0) s.regions r reg hr
+  · intro q
+    have := claimSum_set hregs hr q
+    have hp := h.pool_eq q
+    have hge := sumMap_ge (Region.claimIn q) s.regions r reg hr
+    have hq := hpool q
     omega
   · intro i r' l hh
     rw [hsl] at hh
@@ -62,7 +64,7 @@ theorem inv_retag {s s' : State} {p : List Nat} {i : Nat} {old new : Slot} (h : 
     omega
   · intro r' x hh; rw [hregs] at hh; exact h.reg_ok r' x hh
   · intro o ow hh; rw [hown] at hh; exact h.own_ok o ow hh
-  · rw [hpool, hregs]; exact h.pool_eq
+  · intro q; rw [hpool, hregs]; exact h.pool_eq q
   · intro k r' l hh
     rw [hsl, List.getElem?_set] at hh
     rw [hrc]
@@ -125,7 +127,7 @@ theorem inv_pushRegion {s s' : State} {d : Nat} {reg : Region} {new : Slot} (h :
     rcases getElem?_append_some hh with ⟨_, e⟩ | ⟨_, e⟩
     · subst e; exact ⟨by simp [c1, c2], by simp [c2, c3], by simp [c2], by simp [c4]⟩
     · exact h.reg_ok r' x e
-  · rw [hpool, hregs, sumMap_append]; simp [sumMap, c4]; exact h.pool_eq
+  · intro q; rw [hpool, hregs, sumMap_append]; simp [sumMap, Region.claimIn, c4]; exact h.pool_eq q
   · intro k r' l hh
     rw [hsl, List.getElem?_set] at hh
     rw [hrc]
@@ -317,9 +319,11 @@ theorem inv_addRefSlot {s s' : State} {d r i : Nat} {reg : Region} {hd' h0 : Han
       exact ⟨by simp [hnrel], by simpa using hok.rel_count, by simp [hnrel], by simpa using hok.claim_cap⟩
     · exact h.reg_ok r' x e
   · intro o ow hh; rw [hown] at hh; exact h.own_ok o ow hh
-  · have := claimSum_set hregs hr
-    have hp := h.pool_eq
-    simp at this
+  · intro q
+    have := claimSum_set hregs hr q
+    have hp := h.pool_eq q
+    simp only [Region.claimIn] at this
+    rw [hpool]
     omega
   · intro k r' l hh
     rw [hsl, List.getElem?_set] at hh
@@ -387,9 +391,11 @@ theorem inv_addRefHeld {s s' : State} {o r i : Nat} {reg : Region} {ow : Owner} 
       have hok := h.own_ok o ow ho
       exact ⟨by simpa using hok.drops_eq, by intro hz; simp at hz; omega⟩
     · exact h.own_ok o' ow' e
-  · have := claimSum_set hregs hr
-    have hp := h.pool_eq
-    simp at this
+  · intro q
+    have := claimSum_set hregs hr q
+    have hp := h.pool_eq q
+    simp only [Region.claimIn] at this
+    rw [hpool]
     omega
   · intro k r' l hh
     rw [hsl] at hh
@@ -526,7 +532,7 @@ theorem inv_dropSlot (s : State) (i : Nat) (h : Inv s) : Inv (dropSlot s i) := b
     have hinv : InvP (decOwner o (setSlot s i .empty)).1 (decOwner o (setSlot s i .empty)).2 := by
       refine ⟨by simpa using a1, a2, ?_, a3, ?_, ?_⟩
       · intro r' reg' hh; rw [a4] at hh; exact h.reg_ok r' reg' hh
-      · rw [a6, a4]; exact h.pool_eq
+      · intro q; rw [a6, a4]; exact h.pool_eq q
       · intro k r' l hh
         rw [a5] at hh
         have e : rcOf (decOwner o (setSlot s i .empty)).1 r' = rcOf s r' := by simp only [rcOf, a4]; rfl
